@@ -147,6 +147,9 @@ Inductive sev :=
 | SvInvoke (h : nat) (unary : bool) (id : Z) (m : mkind) (payload md : Z)
 | SvOp (h : nat) (r : opres)
 | SvRet (h : nat)                     (* the handler function returned *)
+| SvReply (h : nat) (f : frame)       (* ghost: the response built from unary handler h's return *)
+| SvTrailer (h : nat) (f : frame)     (* ghost: the trailer SendTrailer built from stream handler h's return *)
+| SvLost (f : frame)                  (* ghost: a worker or SendTrailer gave up handing f to the writer *)
 | SvTaken (f : frame)                 (* ghost: the writer took f from writeChan *)
 | SvWrite (f : frame)                 (* the transport accepted f *)
 | SvWFail (f : frame)                 (* ghost: the transport refused f *)
@@ -470,7 +473,7 @@ Definition r_wk_hand (w : nat) (s : state) : option state :=
 
 Definition r_wk_hand_ctx (w : nat) (s : state) : option state :=
   match nth_error (wk s) w with
-  | Some (WkHand _) => if hctx_done s then Some (set_wk s w WkDead) else None
+  | Some (WkHand f) => if hctx_done s then Some (add_log (set_wk s w WkDead) [SvLost f]) else None
   | _ => None
   end.
 
@@ -532,7 +535,7 @@ Definition r_h_send_ctx (h : nat) (s : state) : option state :=
   match nth_error (hs s) h with
   | Some k =>
       match h_pc k with
-      | HInSend f KTrl => if hdone s k then Some (set_h s h (hset_pc (hset_cancel k) HUnreg)) else None
+      | HInSend f KTrl => if hdone s k then Some (add_log (set_h s h (hset_pc (hset_cancel k) HUnreg)) [SvLost f]) else None
       | HInSend f _ => if hdone s k then Some (add_log (set_h s h (hset_pc k HGate)) [SvOp h OCtx]) else None
       | _ => None
       end
@@ -629,7 +632,8 @@ Definition hstep (s : state) (h : nat) (k : hnd) (o : hop) : state :=
     | HSetTrailer t => add_log (set_h s h (hset_md k (h_hsent k) (h_hdr k) (h_trl k + t))) [SvOp h OOk]
     | HAwaitCtx => set_h s h (hset_pc k HInAwait)
     | HReturn rep e =>
-        add_log (set_wks (set_h s h (hset_pc k HDead)) (finish_unary (wk s) h (unary_reply k rep e))) [SvRet h]
+        add_log (set_wks (set_h s h (hset_pc k HDead)) (finish_unary (wk s) h (unary_reply k rep e)))
+                [SvRet h; SvReply h (unary_reply k rep e)]
     | HRecv | HSend _ => s
     end
   else
@@ -646,7 +650,8 @@ Definition hstep (s : state) (h : nat) (k : hnd) (o : hop) : state :=
     | HSetTrailer t => add_log (set_h s h (hset_md k (h_hsent k) (h_hdr k) (h_trl k + t))) [SvOp h OOk]
     | HAwaitCtx => set_h s h (hset_pc k HInAwait)
     | HReturn _ e =>
-        add_log (set_h s h (hset_pc (hset_md k true (h_hdr k) (h_trl k)) (HInSend (trl_frame k e) KTrl))) [SvRet h]
+        add_log (set_h s h (hset_pc (hset_md k true (h_hdr k) (h_trl k)) (HInSend (trl_frame k e) KTrl)))
+                [SvRet h; SvTrailer h (trl_frame k e)]
     end.
 
 Definition ext (s : state) (a : act) : state :=
